@@ -30,7 +30,7 @@ func runSyndromeKernelErrors() {
 			}
 		}
 	}
-	chk.Range("errors in the kernel of part of the syndrome map: 6 fields x code shapes {(10,6),(11,5),(20,10),(38,20),(36,14),(60,30),(108,40)} that fit x every error count t' = 2..floor(r/2) x 3 position families x syndrome subsets {first t'-1, last t'-1, every second}: each word must be restored exactly", len(jobs),
+	chk.Range("errors in the kernel of part of the syndrome map: 6 fields x code shapes {(10,6),(11,5),(20,10),(38,20),(36,14),(60,30),(108,40)} that fit x every error count t' = 2..floor(r/2) x 3 position families x syndrome subsets {first t'-1, last t'-1, every second, top and every second below it, top two and every second below, lowest and every second above}: each word must be restored exactly", len(jobs),
 		func(i int) string { return fmt.Sprint(jobs[i]) },
 		func(l *mc.Local, i int) {
 			j := jobs[i]
@@ -51,11 +51,30 @@ func runSyndromeKernelErrors() {
 					if !distinct(pos) {
 						continue
 					}
-					rowSets := [][]int{nil, nil, nil}
+					rowSets := [][]int{nil, nil, nil, nil, nil, nil}
 					for q := 0; q < tp-1; q++ {
 						rowSets[0] = append(rowSets[0], q)
 						rowSets[1] = append(rowSets[1], j.r-(tp-1)+q)
 						rowSets[2] = append(rowSets[2], (2*q)%j.r)
+						// shapes of the FIRST quotient of the Euclidean run, x^r divided by the syndrome
+						// polynomial: the top syndrome zero (quotient of degree 2) and every second one
+						// below it zero (its middle coefficient zero, the next one not), and the top two
+						// zero and then every second (degree 3 with an inner zero)
+						rowSets[3] = append(rowSets[3], j.r-1-2*q)
+						if q < 2 {
+							rowSets[4] = append(rowSets[4], j.r-1-q)
+						} else {
+							rowSets[4] = append(rowSets[4], j.r-2*q)
+						}
+						// the lowest syndrome zero and every second above it
+						rowSets[5] = append(rowSets[5], 2*q)
+					}
+					for si := 3; si < 6; si++ {
+						for _, row := range rowSets[si] {
+							if row < 0 || row >= j.r {
+								rowSets[si] = []int{0, 0} // not distinct: skipped below
+							}
+						}
 					}
 					for rsI, rows := range rowSets {
 						if !distinct(rows) {
